@@ -136,6 +136,15 @@ Lemma find_app' p l1 l2 :
   find p (l1 ++ l2) = match find p l1 with Some x => Some x | None => find p l2 end.
 Proof. induction l1 as [|a l1 IH]; cbn; auto. destruct (p a); auto. Qed.
 
+Lemma nth_error_skipn' (c : nat) l (i : nat) : nth_error (skipn c l) i = nth_error l (c + i).
+Proof. revert l. induction c as [|c IH]; intros l; cbn; auto. destruct l; cbn; auto. destruct i; reflexivity. Qed.
+
+Lemma nth_error_firstn' (c : nat) l (i : nat) : (i < c)%nat -> nth_error (firstn c l) i = nth_error l i.
+Proof.
+  revert l i. induction c as [|c IH]; intros l i H; [lia|].
+  destruct l; cbn; auto. destruct i; cbn; auto. apply IH. lia.
+Qed.
+
 Lemma len_app l1 l2 : len (l1 ++ l2) = len l1 + len l2.
 Proof. unfold len. rewrite app_length. lia. Qed.
 
